@@ -77,6 +77,9 @@ fn cid(c: usize) -> ClientId {
 
 fn gen_ops(rng: &mut Rng, n_clients: usize, n: usize, tag: &mut usize, phase: usize, cas_bug_bait: bool) -> Vec<DOp> {
     let mut ops = vec![];
+    // (key, value) of earlier writes of this phase: re-used for writes that keep the value but
+    // change the kind or the version of the entry
+    let mut written: Vec<(String, Value)> = vec![];
     for _ in 0..n {
         *tag += 1;
         let c = rng.below(n_clients as u64) as usize;
@@ -92,8 +95,28 @@ fn gen_ops(rng: &mut Rng, n_clients: usize, n: usize, tag: &mut usize, phase: us
             }
         };
         let op = match rng.below(20) {
-            0..=7 => DOp::Set { c, key, value: val(rng, *tag) },
-            8..=10 => DOp::CSet { c, key, value: val(rng, *tag), version: *rng.pick(&[0u64, 0, 1, 2]) },
+            0..=7 => {
+                if !written.is_empty() && rng.chance(1, 10) {
+                    // plain set of the value the key already holds
+                    let (k, v) = rng.pick(&written).clone();
+                    DOp::Set { c, key: k, value: v }
+                } else {
+                    let v = val(rng, *tag);
+                    written.push((key.clone(), v.clone()));
+                    DOp::Set { c, key, value: v }
+                }
+            }
+            8..=10 => {
+                if !written.is_empty() && rng.chance(1, 3) {
+                    // conditional write that keeps the value: plain → CAS, or version + 1
+                    let (k, v) = rng.pick(&written).clone();
+                    DOp::CSet { c, key: k, value: v, version: *rng.pick(&[0u64, 0, 1, 2]) }
+                } else {
+                    let v = val(rng, *tag);
+                    written.push((key.clone(), v.clone()));
+                    DOp::CSet { c, key, value: v, version: *rng.pick(&[0u64, 0, 1, 2]) }
+                }
+            }
             11..=12 => DOp::Delete { c, key },
             13 => {
                 let p = crate::wgen::pattern(rng, 3);
